@@ -14,6 +14,7 @@ package main
 import (
 	"bytes"
 	"encoding/json"
+	"fmt"
 	"os"
 	"time"
 
@@ -31,6 +32,14 @@ type runRecord struct {
 	Dur     float64     `json:"wall_s"`
 	Races   int         `json:"race_reports"`
 	Out     childOut    `json:"-"`
+	// repetitions 2.. of a run with Reps > 1 (repetition 1 is Res / Metrics)
+	Reps    []repRecord `json:"-"`
+	RepFail string      `json:"repetition_fail,omitempty"`
+}
+
+type repRecord struct {
+	Res     childResult
+	Metrics []metricRow
 }
 
 func execRun(bins *binaries, scratch string, job childJob) runRecord {
@@ -73,6 +82,27 @@ func execRun(bins *binaries, scratch string, job childJob) runRecord {
 		}
 		rr.Metrics = m
 		rr.NumRows = len(m)
+	}
+	for k := 1; k < job.Run.Reps; k++ {
+		rv, ok := notes[fmt.Sprintf("rep%d", k)]
+		if !ok {
+			rr.RepFail = fmt.Sprintf("repetition %d ended without a record: %s", k+1, tailStr(vlib.Tail(out.OutPath, 1500), 1500))
+			break
+		}
+		var rp repRecord
+		if err := json.Unmarshal(rv, &rp.Res); err != nil || rp.Res.SQLite == "" {
+			rr.RepFail = fmt.Sprintf("repetition %d: bad record or no sqlite file", k+1)
+			break
+		}
+		if job.Case.Timing {
+			mm, err := readMetrics(out.Dir + "/" + rp.Res.SQLite)
+			if err != nil {
+				rr.RepFail = fmt.Sprintf("repetition %d: cannot read mgpusim_metrics: %v", k+1, err)
+				break
+			}
+			rp.Metrics = mm
+		}
+		rr.Reps = append(rr.Reps, rp)
 	}
 	rr.OK = true
 	return rr
